@@ -7,6 +7,9 @@ VERIF = os.path.dirname(os.path.dirname(os.path.abspath(__file__)))
 
 # id -> (technique, level text, level note, design ref)   -- only checks that exist under mc/checks are claimed
 CHECKS = {
+    "C07": ("explicit-state BFS over marking-operation histories on the real objects, set model in lock-step, canonical-state de-duplication",
+            "From the unmarked object of each kind (2.0 SDO, 2.1 SDO, 2.1 SRO, plain dict) every history of add/remove/set/clear events of length <=3 over the event alphabet (selector options incl. string-prefix siblings, list parent/child, nested, multi-selector, empty; marking refs, language markings, duplicates, marking objects; flag variants) is executed with the set-of-(selector,marking) model in lock-step; in every reached state all get_markings/is_marked queries x flag combinations are compared with the model and with each other; layout variants and every directly constructed state with <=2 pairs (incl. the non-versionable 2.1 marking-definition) are explored as well. States are merged on (kind, pair set).",
+            "trusted: mc/ref/markset.py; canonicalisation argument in DESIGN §3 C07 K; selectors through embedded objects are blocked by the C08 defect on object forms (counted in evidence notes)", "DESIGN.md §3 C07"),
     "C15": ("bounded exhaustive enumeration (deviation-bounded, DEV mode) against an integer-arithmetic reference formatter",
             "All 10^6 microsecond values x 3 precisions x 2 constraints on one base date, a structured product of 13 years x calendar/time boundaries x 9 tzinfo kinds x microsecond digit patterns x 2 entry forms, accepted string spellings (0-9 fraction digits, case variants) and timestamp properties of real objects are executed on format_datetime/parse_into_datetime and compared with an independent integer formatter; fixpoint and order clauses checked on every produced text. Covers the digit/precision dimension completely and the calendar dimension at its boundaries.",
             "trusted: mc/ref/tsfmt.py (days-from-civil integer algorithm, self-tested against datetime); years/dates covered at boundaries only", "DESIGN.md §3 C15"),
